@@ -74,6 +74,13 @@ def opts_to_argv(opts, rng=None):
     m = {"times": "-t", "dates": "-d", "tods": "-tod", "leadtimes": "-o", "locations": "-l",
          "locations_x": "-lx", "latrange": "-latrange", "lonrange": "-lonrange", "elevrange": "-elevrange",
          "obsrange": "-obsrange"}
+    if opts.get("T"):
+        T = opts["T"]
+        a += ["-T", gen.fnum(T["h"])]
+        if T.get("agg"):
+            a += ["-Tagg", T["agg"]]
+        if T.get("tx"):
+            a += ["-Tx", T["tx"]]
     for k, flag in m.items():
         if opts.get(k) is not None:
             if k.endswith("range"):
